@@ -17,18 +17,21 @@ from typing import Any, Dict, FrozenSet, Iterable, Optional
 
 from .rx import Set, Sym
 
-S0, A, C1, M0, M, MC, F0, F, FC, F1 = range(10)
-NAMES = ["S0", "A", "C1", "M0", "M", "Mc", "F0", "F", "Fc", "F1"]
+S0, A, C1, M0, M, MC, F0, F, FC, F1, D = range(11)
+NAMES = ["S0", "A", "C1", "M0", "M", "Mc", "F0", "F", "Fc", "F1", "D"]
 HEX = frozenset("0123456789abcdef")
-ALL_STATES = frozenset(range(10))
+ALL_STATES = frozenset(range(11))
 
 INST, OPER, DEREF, NAME, DIGITS, INSTBODY, FIELD = "INST", "OPER", "DEREF", "NAME", "DIGITS", "INSTBODY", "FIELD"
 
-BOUNDARY = {INST: frozenset([S0]), OPER: frozenset([F0, F1]), DEREF: frozenset([F0, F, FC, F1])}
-UNIT_END = {INST: frozenset([S0]), OPER: frozenset([F1]), DEREF: frozenset([F, FC])}
+# D: inside a bracket operand "[...]" (a field that starts with '[' holds no separator up to its ']':
+# established for the parser's output by C09/C10)
+BOUNDARY = {INST: frozenset([S0]), OPER: frozenset([F0, F1]), DEREF: frozenset([D])}
+UNIT_END = {INST: frozenset([S0]), OPER: frozenset([F1]), DEREF: frozenset([D])}
 
 # sets the grammar distinguishes (for minterm computation)
-GRAMMAR_SETS = [Set(HEX), Set(frozenset(",")), Set(frozenset("|")), Set(frozenset(":"))]
+GRAMMAR_SETS = [Set(HEX), Set(frozenset(",")), Set(frozenset("|")), Set(frozenset(":")), Set(frozenset("[")),
+                Set(frozenset("]"))]
 
 
 def _fieldchar(q: int, colon: bool) -> Optional[int]:
@@ -73,6 +76,12 @@ class Grammar:
                 return [C1] if x == ":" else []
             if q == C1:
                 return [M0] if x == ":" else []
+            if q == D:
+                if x in ",|":
+                    return []
+                return [F] if x == "]" else [D]
+            if x == "[" and q in (F0, F1):
+                return [D]
             if x == ",":
                 if q in (M, MC):
                     return [F0]
@@ -89,6 +98,8 @@ class Grammar:
         if x.kind in ("bol", "eol"):
             return [q]
         lv = self.level_of(x)
+        if q == D:
+            return [D] if lv in (NAME, DIGITS, DEREF, FIELD) else []
         if lv == NAME or lv == DIGITS:
             out = []
             r = _fieldchar(q, False)
@@ -105,9 +116,11 @@ class Grammar:
             return []
         if lv == OPER:
             return [F1] if q in (F0, F1) else []
-        if lv == DEREF or lv == FIELD:
+        if lv == DEREF:
+            return []
+        if lv == FIELD:
             r = _fieldchar(q, False)
-            if lv == FIELD and q in (M0, M, MC):
+            if q in (M0, M, MC):
                 return []
             return [] if r is None else [r]
         if lv == INSTBODY:
@@ -132,7 +145,7 @@ def start_states(level: str) -> FrozenSet[int]:
     if level == OPER:
         return frozenset([F0, F1])
     if level == DEREF:
-        return frozenset([F])
+        return frozenset([D])
     raise KeyError(level)
 
 
